@@ -30,7 +30,8 @@ def _check(pid):
             raise Violation('reported:' + case['program'], 'no result after 300 s')
         ctx.case(case['program'], True, {'program': case['program'], 'exit': r.returncode})
         if r.returncode != 0:
-            tail = (r.stderr.strip().splitlines() or r.stdout.strip().splitlines() or ['exit %d' % r.returncode])[-1]
+            lines = r.stderr.strip().splitlines() or r.stdout.strip().splitlines() or ['exit %d' % r.returncode]
+            tail = next((ln for ln in reversed(lines) if 'Error' in ln or 'assert' in ln.lower()), lines[-1])
             raise Violation('reported:' + case['program'], tail[:600])
     return check
 
